@@ -270,11 +270,9 @@ fn bal_body(c: &BalCase, ch: &Chooser) -> Outcome {
     let ch = ch.clone();
     let (trace, bad) = rt.block_on(async move {
         let up = backends().await;
-        // a port that refuses connections: bound once and released
-        let dead = match tokio::net::TcpListener::bind("127.0.0.1:0").await {
-            Ok(l) => l.local_addr().map(|a| a.port()).unwrap_or(1),
-            Err(e) => crate::explore::machinery(format!("cannot bind a loopback listener: {e}")),
-        };
+        // a port that refuses connections: port 1 of the loopback interface (a port that was bound
+        // and released would do, were it not handed to the next execution's server a moment later)
+        let dead = 1u16;
         let ports = [up[0], up[1], dead];
         let (channel, tx) = tonic::transport::Channel::balance_channel::<usize>(16);
         let mut live = [false; 3];
